@@ -178,9 +178,12 @@ def main():
             if not confirm and old.get("confirmation"):
                 meta["confirmation"] = old["confirmation"]
                 meta["repo_commit"] = old.get("repo_commit", meta["repo_commit"])
+            meta["first_confirmation"] = old.get("first_confirmation") or old.get("confirmation")
             hist = old.get("history", [])
             hist.append({"verif_commit": old.get("verif_commit"), "checks": old.get("checks")})
             meta["history"] = hist
+        if not meta.get("first_confirmation"):
+            meta["first_confirmation"] = meta["confirmation"]
         meta["verif_commit"] = sh("git -C /verif rev-parse --short HEAD")[1].strip()
         json.dump(meta, open(mp, "w"), indent=1)
     print(json.dumps(res))
